@@ -136,7 +136,7 @@ def random_cases(ctx, num, nmax, wmax, picks, algos, flips=True, updates=True, s
 
 
 def gen(ctx, cfg, defines, mode="mc", num=0, depth=0, timeout=600):
-    defines = dict({"FOCUS": "FALSE"}, **defines)
+    defines = dict({"FOCUS": "FALSE", "ANYORDER": "TRUE"}, **defines)
     r = ctx.tlc("Balancer", "GenSlb", cfg, mode=mode, sim_num=num, sim_depth=depth,
                 defines=defines, timeout=timeout, count=False)
     if not r.ok:
@@ -154,7 +154,7 @@ def check_c01(ctx):
     mcd = {"N": 3, "WLO": 0, "WHI": 3, "PICKS": 14, "UPDATES": 1, "SCALE": 1} if q else \
           {"N": 3, "WLO": 0, "WHI": 4, "PICKS": 26, "UPDATES": 1, "SCALE": 1}
     ctx.cov["constants"]["MC_C01"] = mcd
-    ctx.tlc_must_pass("Balancer", "Slb", "MC_C01.cfg", defines=mcd, timeout=1500, coverage=not q)
+    ctx.tlc_must_pass("Balancer", "Slb", "MC_C01.cfg", defines=dict(mcd, ANYORDER="TRUE"), timeout=1500, coverage=not q)
     cases = []
     g1 = {"N": 2, "WLO": 0, "WHI": 3, "PICKS": 12, "UPDATES": 1, "OPS": 14, "SCALE": 100} if q else \
          {"N": 3, "WLO": 0, "WHI": 2, "PICKS": 14, "UPDATES": 1, "OPS": 16, "SCALE": 100}
@@ -165,8 +165,9 @@ def check_c01(ctx):
          {"N": 3, "WLO": 0, "WHI": 3, "PICKS": 10, "UPDATES": 1, "OPS": 12, "SCALE": 100, "FOCUS": "TRUE"}
     ctx.cov["constants"]["Gen_C01_focus"] = g3
     cases += gen(ctx, "Gen_C01.cfg", g3, timeout=1500)
-    for n, num in ((3, 300), (4, 300)) if q else ((4, 3000), (5, 3000), (6, 2000)):
-        g2 = {"N": n, "WLO": 0, "WHI": 4, "PICKS": 30, "UPDATES": 1, "OPS": 34, "SCALE": 100}
+    for n, num in ((3, 300), (4, 300)) if q else ((3, 3000), (4, 3000), (5, 2000)):
+        g2 = {"N": n, "WLO": 0, "WHI": 4 if n < 5 else 3, "PICKS": 30, "UPDATES": 1, "OPS": 34, "SCALE": 100,
+              "ANYORDER": "TRUE" if n < 5 else "FALSE"}
         cases += gen(ctx, "Gen_C01.cfg", g2, mode="sim", num=num, depth=40)
     cases += random_cases(ctx, 40 if q else 400, 6, 12 if q else 30, 150 if q else 400, ["smooth"], flips=True)
     ctx.cov["exhaustive"] = False
@@ -177,12 +178,12 @@ def check_c01(ctx):
 def check_all(ctx, decisive, label):
     q = ctx.tier == "quick"
     mcd = {"N": 3, "WLO": 1, "WHI": 2, "PICKS": 2, "UPDATES": 1, "FLIPS": 1, "CONNOPS": 1, "MAXCONN": 1, "SCALE": 2} if q else \
-          {"N": 3, "WLO": 1, "WHI": 2, "PICKS": 3, "UPDATES": 1, "FLIPS": 2, "CONNOPS": 2, "MAXCONN": 2, "SCALE": 2}
+          {"N": 3, "WLO": 1, "WHI": 2, "PICKS": 3, "UPDATES": 1, "FLIPS": 1, "CONNOPS": 1, "MAXCONN": 2, "SCALE": 2}
     ctx.cov["constants"]["MC_All"] = mcd
-    ctx.tlc_must_pass("Balancer", "Slb", "MC_All.cfg", defines=mcd, timeout=2400, coverage=False)
+    ctx.tlc_must_pass("Balancer", "Slb", "MC_All.cfg", defines=dict(mcd, ANYORDER="TRUE"), timeout=2400, coverage=False)
     cases = []
     for n, num in ((0, 20), (1, 100), (2, 300), (3, 600), (4, 300)) if q else \
-            ((0, 50), (1, 500), (2, 3000), (3, 6000), (4, 6000), (5, 3000)):
+            ((0, 50), (1, 500), (2, 3000), (3, 6000), (4, 6000)):
         g = {"N": n, "WLO": 1, "WHI": 3, "PICKS": 10, "UPDATES": 2, "FLIPS": 3, "CONNOPS": 4,
              "MAXCONN": 3, "OPS": 12, "SCALE": 100}
         cases += gen(ctx, "Gen_All.cfg", g, mode="sim", num=num, depth=16)
